@@ -52,6 +52,7 @@ class Out(object):
         self.endian = endian
         self.buf = bytearray()
         self.spans = []
+        self.starts = {}      # path of a struct field -> offset at which the field starts (after its alignment)
 
     def pos(self):
         return len(self.buf)
@@ -211,6 +212,7 @@ class Ref(object):
     def encode(self, t, v, endian):
         out = Out(endian)
         self._enc(t, v, out, '')
+        self.last_starts = out.starts
         return bytes(out.buf), out.spans
 
     def _enc(self, t, v, out, path):
@@ -252,6 +254,7 @@ class Ref(object):
             for f in block:
                 out.pad_to(f.align, 'field', path + '.' + f.name)      # R2
                 p = path + '.' + f.name
+                out.starts[p] = out.pos()
                 if f.kind == 'scalar':
                     out.scalar(f.type, v[f.name], 'scalar', p)
                 elif f.kind == 'enum':
